@@ -149,7 +149,7 @@ impl Check for C09 {
     }
 
     fn rule(&self) -> String {
-        "case = World script as in C08 without Server::drop: generated amounts and modes of data queued in both directions when disconnect() / disconnect_now() is called from either side, loss / duplication / reordering of data, ack, disconnect and disconnect-ack frames, blackouts incl. a total one until the end, followed by 60 s of regular stepping. Oracle: (1) if an endpoint's terminal event is Disconnect and it did not itself ask to disconnect, its Receive events before that Disconnect include every Reliable packet the peer submitted (and had accepted) before the peer's first disconnect() call, provided the peer never called disconnect_now(); (2) with t0 the first time the caller's Disconnect frame appears on the wire, the caller reaches a terminal event by t0 + 22 s + 12 x largest step gap (each of the 11 retry intervals is re-armed at the step that serves it), and the peer by max(t0, arrival of the last datagram it received) + max(22 s, its active_timeout_ms) + 12 x largest step gap; (2') a client that asked to disconnect does not end with Error(Timeout) when the server, having reported Disconnect on one of the client's requests, was handed another intact copy of the request within 19 s and put no DisconnectAck on the wire at the step that served it (Timeout is for an unreachable peer), and the same with the roles exchanged; (3) the event streams are well-formed (nothing after a terminal event). One case in seven instead drives the two HalfConnections of one connection directly (SimPair scenario with faults, tiny to full-size windows, then a fair phase): after every tick and at the end, whenever a sender has nothing pending - the moment disconnect() would send its request - and none of its data frames is travelling, every Reliable packet it accepted so far has been handed to the peer application. Non-trivial = a Reliable packet was still unacknowledged at a disconnect() call and at least one frame was faulted afterwards. Distinct = distinct serialised case.".into()
+        "case = World script as in C08 without Server::drop: generated amounts and modes of data queued in both directions when disconnect() / disconnect_now() is called from either side, loss / duplication / reordering of data, ack, disconnect and disconnect-ack frames, blackouts incl. a total one until the end, followed by 60 s of regular stepping. Oracle: (0) a disconnect_now() on an established server-side connection puts the request on the wire at the server's next step, whatever was asked before (a pending graceful disconnect() included); (1) if an endpoint's terminal event is Disconnect and it did not itself ask to disconnect, its Receive events before that Disconnect include every Reliable packet the peer submitted (and had accepted) before the peer's first disconnect() call, provided the peer never called disconnect_now(); (2) with t0 the first time the caller's Disconnect frame appears on the wire, the caller reaches a terminal event by t0 + 22 s + 12 x largest step gap (each of the 11 retry intervals is re-armed at the step that serves it), and the peer by max(t0, arrival of the last datagram it received) + max(22 s, its active_timeout_ms) + 12 x largest step gap; (2') a client that asked to disconnect does not end with Error(Timeout) when the server, having reported Disconnect on one of the client's requests, was handed another intact copy of the request within 19 s and put no DisconnectAck on the wire at the step that served it (Timeout is for an unreachable peer), and the same with the roles exchanged; (3) the event streams are well-formed (nothing after a terminal event). One case in seven instead drives the two HalfConnections of one connection directly (SimPair scenario with faults, tiny to full-size windows, then a fair phase): after every tick and at the end, whenever a sender has nothing pending - the moment disconnect() would send its request - and none of its data frames is travelling, every Reliable packet it accepted so far has been handed to the peer application. Non-trivial = a Reliable packet was still unacknowledged at a disconnect() call and at least one frame was faulted afterwards. Distinct = distinct serialised case.".into()
     }
 
     fn assumptions(&self) -> Vec<String> {
@@ -195,6 +195,38 @@ impl Check for C09 {
             let s_term = w.server_events.iter().find(|(_, _, e)| matches!(e, SEv::Disconnect(a) | SEv::Error(a, _) if *a == addr)).cloned();
             let s_connected = w.server_events.iter().any(|(_, _, e)| matches!(e, SEv::Connect(a) if *a == addr));
 
+            // ---- (0) "immediately for disconnect_now()": the request is on the wire at the caller's next step, whatever
+            // was asked of the connection before (a pending graceful disconnect included)
+            for (s_call, _, a) in log.api.iter() {
+                if !matches!(a, Api::ServerDisconnect { c, now: true } if *c == k) {
+                    continue;
+                }
+                // the connection was established and had not ended, and no disconnect request of either side had travelled yet
+                let connected_before = w.server_events.iter().any(|(s, _, e)| *s < *s_call && matches!(e, SEv::Connect(x) if *x == addr));
+                let ended_before = w.server_events.iter().any(|(s, _, e)| *s < *s_call && matches!(e, SEv::Disconnect(x) | SEv::Error(x, _) if *x == addr));
+                let dropped_before = log.api.iter().any(|(s, _, a)| *s < *s_call && matches!(a, Api::ServerDrop { c } if *c == k));
+                let mut steps_after = w.server_steps.iter().filter(|p| p.0 > *s_call);
+                let (Some(s1), Some(s2)) = (steps_after.next(), steps_after.next()) else { continue };
+                // (the last request before a step is the one that counts: a later disconnect() turns the request into a
+                // graceful one again)
+                if log.api.iter().any(|(s, _, a)| *s > *s_call && *s < s1.0 && matches!(a, Api::ServerDisconnect { c, .. } if *c == k)) {
+                    continue;
+                }
+                let request_seen_before = w.wire.iter().any(|r| r.seq < s2.0 && r.bytes.first() == Some(&4) && ((r.from == addr && r.to == w.server_addr) || (r.from == w.server_addr && r.to == addr && r.seq < *s_call)));
+                if !connected_before || ended_before || dropped_before || request_seen_before || log.reconnects > 0 {
+                    continue;
+                }
+                let sent = w.wire.iter().any(|r| r.seq > *s_call && r.seq < s2.0 && r.from == w.server_addr && r.to == addr && r.bytes.first() == Some(&4));
+                let ended_now = w.server_events.iter().any(|(s, _, e)| *s > *s_call && *s < s2.0 && matches!(e, SEv::Disconnect(x) | SEv::Error(x, _) if *x == addr));
+                classes.push("disconnect_now_on_an_established_connection");
+                if !sent && !ended_now {
+                    let earlier_graceful = log.api.iter().any(|(s, _, a)| *s < *s_call && matches!(a, Api::ServerDisconnect { c, now: false } if *c == k));
+                    return CaseResult::fail(
+                        "oracle:c09:disconnect_now_not_transmitted_at_once:server",
+                        format!("the server application called disconnect_now() on the established connection of client {k} ({addr}); the server's next step() put no disconnect request on the wire (a graceful disconnect() had been requested earlier: {earlier_graceful})"),
+                    );
+                }
+            }
             // ---- (1) flush clause: client disconnect() -> server sees everything --------------------
             if let (Some(s0), true, false, Some((tseq, _, SEv::Disconnect(_)))) = (c_first_disc, c_flush_first, c_any_now, s_term.clone()) {
                 if s_first_disc.map_or(true, |sd| sd > tseq) {
